@@ -124,7 +124,12 @@ def finish(prop, results, t0, seed, tier, level="proof", extra_cov=None, assumpt
             known.append((o, f))
             continue
         det = o.get("detail", "")
-        if det.startswith("NOWITNESS"):
+        if o.get("kind") == "frame" and prop not in ("C14", "C15"):
+            # a write to state that outlives the call is a violation of C14/C15 only; for this property it means the
+            # engine cannot model the call tree: undecided here (the bounded cross-check still runs)
+            o["status"] = "undecided"
+            undecided.append(o)
+        elif det.startswith("NOWITNESS"):
             # refuted only under an abstraction (uninterpreted spec function / opaque input) and no concrete input
             # found: the abstraction may be too coarse, so this is undecided, never a violation
             o["status"] = "undecided"      # a failed structural obligation without a failing input is not a violation
